@@ -388,3 +388,115 @@ func stringListInOrder(info *types.Info, e ast.Expr) []string {
 	}
 	return out
 }
+
+// nameSet: a set of constant strings that a function tests a key against — a package-level table consulted by a lookup
+// (see tableLookup), or the cases of a `switch key { case "a", "b": return true }` in a predicate whose other returns
+// are false.
+type nameSet struct {
+	Names  []string
+	Pos    map[string]token.Pos
+	Key    ast.Expr
+	Node   ast.Node
+	Source string // the table's name, or "switch in <func>"
+	Name   string // (set by the user of the set: how to call it in a report)
+	Table  string // the table's name ("" for a switch)
+	Sorted bool
+}
+
+func nameSetsIn(p *packages.Package, fd *ast.FuncDecl) []nameSet {
+	info := p.TypesInfo
+	var out []nameSet
+	if fd == nil || fd.Body == nil {
+		return nil
+	}
+	for _, lk := range tableLookupsIn(info, p.Types, fd.Body) {
+		init := pkgVarInit(p, lk.Name)
+		if init == nil {
+			continue
+		}
+		names, ok := stringSetLiteral(info, init)
+		if !ok {
+			continue
+		}
+		ns := nameSet{Names: names, Pos: map[string]token.Pos{}, Key: lk.Key, Node: lk.Node, Source: lk.Name, Table: lk.Name, Sorted: lk.Sorted}
+		if cl, ok := ast.Unparen(init).(*ast.CompositeLit); ok {
+			_, isMap := info.TypeOf(cl).Underlying().(*types.Map)
+			for _, el := range cl.Elts {
+				var ne ast.Expr = el
+				if kv, ok := el.(*ast.KeyValueExpr); ok {
+					ne = kv.Value
+					if isMap {
+						ne = kv.Key
+					}
+				}
+				if s, ok := constString(info, ne); ok {
+					ns.Pos[s] = ne.Pos()
+				}
+			}
+		}
+		out = append(out, ns)
+	}
+	// the predicate form
+	if fd.Type.Results == nil || len(fd.Type.Results.List) != 1 || info.TypeOf(fd.Type.Results.List[0].Type) == nil || info.TypeOf(fd.Type.Results.List[0].Type).String() != "bool" {
+		return out
+	}
+	isBool := func(e ast.Expr, want bool) bool {
+		tv, ok := info.Types[e]
+		return ok && tv.Value != nil && tv.Value.Kind() == constant.Bool && constant.BoolVal(tv.Value) == want
+	}
+	var sw *ast.SwitchStmt
+	nsw := 0
+	othersFalse := true
+	ast.Inspect(fd.Body, func(n ast.Node) bool {
+		switch x := n.(type) {
+		case *ast.FuncLit:
+			return false
+		case *ast.SwitchStmt:
+			if x.Tag != nil && x.Init == nil {
+				sw = x
+				nsw++
+			}
+		}
+		return true
+	})
+	if sw == nil || nsw != 1 {
+		return out
+	}
+	ns := nameSet{Pos: map[string]token.Pos{}, Key: sw.Tag, Node: sw, Source: "switch in " + fd.Name.Name}
+	inSwitchTrue := map[*ast.ReturnStmt]bool{}
+	for _, cc := range sw.Body.List {
+		cl := cc.(*ast.CaseClause)
+		accepts := len(cl.Body) == 1
+		if accepts {
+			ret, ok := cl.Body[0].(*ast.ReturnStmt)
+			accepts = ok && len(ret.Results) == 1 && isBool(ret.Results[0], true)
+			if accepts {
+				inSwitchTrue[ret] = true
+			}
+		}
+		if !accepts || cl.List == nil {
+			continue
+		}
+		for _, e := range cl.List {
+			s, ok := constString(info, e)
+			if !ok {
+				return out
+			}
+			ns.Names = append(ns.Names, s)
+			ns.Pos[s] = e.Pos()
+		}
+	}
+	ast.Inspect(fd.Body, func(n ast.Node) bool {
+		if ret, ok := n.(*ast.ReturnStmt); ok && !inSwitchTrue[ret] {
+			if len(ret.Results) != 1 || !isBool(ret.Results[0], false) {
+				othersFalse = false
+			}
+		}
+		return true
+	})
+	if !othersFalse || len(ns.Names) == 0 {
+		return out
+	}
+	sort.Strings(ns.Names)
+	return append(out, ns)
+}
